@@ -4,7 +4,7 @@
    of [node_notifs].  Sources without multiply-linked files ([multi] all-false). *)
 From Coq Require Import List NArith Bool Lia ZifyN ZifyNat ZifyBool.
 From FS Require Import Sx Model.Path Model.SymMode Model.Copier Model.CopySpec Proofs.Lex
-  Proofs.CopierP Proofs.CopyOpsP Proofs.CopyDentP.
+  Proofs.CopierP Proofs.CopyOpsP Proofs.CopyDentP Proofs.CopyLinkP.
 Import ListNotations.
 Open Scope N_scope.
 Open Scope bool_scope.
@@ -33,8 +33,9 @@ Section Node.
   Variable multi : N -> bool.
   Variable selected : list (list N) -> bool.
   Hypothesis Hsel : forall p, selected p = true.
-  Hypothesis Hmulti : forall i, multi i = false.
+  Variable sdof : N -> dent.
   Notation Inv := (Inv o).
+  Notation Lk := (Lk o ms multi sdof).
   Notation touch := (touch o).
   Notation copied := (copied o ms multi).
   Notation new_entry := (new_entry o ms multi).
@@ -197,27 +198,53 @@ Section Node.
     (exists P a, T = P ++ [a] /\ x_isdir (X P) = true).
 
   Definition node_ok (n : snode) : Prop :=
-    forall sc T ow st X, Inv (c_fs st) X -> tok X T (sdent n) -> nc X T n ->
+    forall sc T ow st X, Inv (c_fs st) X -> Lk (c_fs st) X (c_imap st) -> PC T (c_imap st) ->
+      tok X T (sdent n) -> nc X T n ->
     exists st', copy_node o ms multi selected n sc T ow st = (st', None) /\
                 Inv (c_fs st') (res n T (negb ow) X) /\
+                Lk (c_fs st') (res n T (negb ow) X) (c_imap st') /\
+                IM (c_imap st) (c_imap st') T /\
                 c_notifs st' = rev (node_notifs X (negb ow) T n) ++ c_notifs st /\
-                c_imap st' = c_imap st /\ c_stale st' = c_stale st.
+                c_stale st' = c_stale st.
+
+  (* every multiply-linked regular file of the tree carries the dentry [sdof] gives for its inode *)
+  Fixpoint cons_s (n : snode) {struct n} : Prop :=
+    match n with
+    | SNode _ ino d kids =>
+      (is_reg d = true -> multi ino = true -> d = sdof ino) /\
+      (fix all (l : list snode) : Prop := match l with [] => True | k :: r => cons_s k /\ all r end) kids
+    end.
+  Lemma cons_s_unfold nm ino d kids :
+    cons_s (SNode nm ino d kids) <-> (is_reg d = true -> multi ino = true -> d = sdof ino) /\ Forall cons_s kids.
+  Proof.
+    simpl. assert (E : forall l, (fix all (l : list snode) : Prop := match l with [] => True | k :: r => cons_s k /\ all r end) l <-> Forall cons_s l).
+    { induction l as [|k r IH]; split; intro H; auto.
+      - destruct H. constructor; auto. apply IH; auto.
+      - inversion H; subst. split; auto. apply IH; auto. }
+    rewrite E. tauto.
+  Qed.
+
+  Lemma IM_refl im T : IM im im T.
+  Proof. intros s l i H. auto. Qed.
 
   (* ---- removeTargetIfNeeded ---- *)
   Lemma step_remove sd P a st X :
-    Inv (c_fs st) X -> x_isdir (X P) = true ->
+    Inv (c_fs st) X -> Lk (c_fs st) X (c_imap st) -> PC (P ++ [a]) (c_imap st) -> x_isdir (X P) = true ->
     let T := P ++ [a] in
     let removed := o_replace o && match X T with Some e => negb (is_dir sd && is_dir (x_d e)) | None => false end in
     exists fs1, remove_target_if_needed o T sd (lstat (c_fs st) T) st = (with_fs st fs1, None) /\
-                Inv fs1 (if removed then touch P (xrm T X) else X).
+                Inv fs1 (if removed then touch P (xrm T X) else X) /\
+                Lk fs1 (if removed then touch P (xrm T X) else X) (c_imap st).
   Proof.
-    intros I HP T removed. unfold remove_target_if_needed, removed.
+    intros I L Hpc HP T removed. unfold remove_target_if_needed, removed.
     pose proof (inv_lstat _ _ _ T I) as HL.
     destruct (o_replace o); cbn [negb andb].
     - destruct (lstat (c_fs st) T) as [td|], (X T) as [e|] eqn:EX; try contradiction.
       + rewrite (dm_is_dir _ _ _ HL). destruct (is_dir sd && is_dir (x_d e)); cbn [negb].
         * exists (c_fs st). destruct st; auto.
-        * eexists. split; [reflexivity|]. eapply inv_k_remove_all; eauto.
+        * eexists. split; [reflexivity|]. split; [eapply inv_k_remove_all; eauto|].
+          cbn [with_fs c_fs]. apply (Lk_removed o ms multi sdof (c_fs st)); auto.
+          intro q. apply k_remove_all_names. destruct (inv_x_some _ _ _ _ _ I EX) as (i & Hi & _). fold T. congruence.
       + exists (c_fs st). destruct st; auto.
     - exists (c_fs st). destruct st; auto.
   Qed.
@@ -233,10 +260,23 @@ Section Node.
   Lemma xupd_xupd T v v' Y q : xupd T v (xupd T v' Y) q = xupd T v Y q.
   Proof. unfold xupd. destruct (path_eqb q T); auto. Qed.
 
-  Lemma new_entry_key s T : x_key (new_entry s T) = KNew T.
-  Proof. unfold CopySpec.new_entry. cbn [x_key]. rewrite Hmulti, andb_false_r. auto. Qed.
+  Lemma type_facts sd :
+    (is_reg sd = true -> is_lnk sd = false /\ is_dev sd = false /\ copy_type sd = S_IFREG) /\
+    (is_lnk sd = true -> is_reg sd = false /\ is_dev sd = false /\ copy_type sd = S_IFLNK) /\
+    (is_dir sd = true -> is_reg sd = false /\ is_lnk sd = false /\ is_dev sd = false /\ is_sock sd = false /\ copy_type sd = S_IFDIR).
+  Proof.
+    unfold is_reg, is_lnk, is_dir, is_dev, is_sock, copy_type, is_sock.
+    split; [|split]; intro H; apply N.eqb_eq in H; rewrite H; repeat split; reflexivity.
+  Qed.
 
-  (* creation of a non-directory + metadata phase + notification *)
+  Lemma type_facts_reg sd : is_reg sd = true -> is_lnk sd = false /\ is_dev sd = false /\ copy_type sd = S_IFREG.
+  Proof. apply type_facts. Qed.
+
+  Lemma new_entry_key s T :
+    x_key (new_entry s T) = if is_reg (sdent s) && multi (sino s) then KSrc (sino s) else KNew T.
+  Proof. reflexivity. Qed.
+
+  (* creation of a non-directory (fresh inode) + metadata phase + notification *)
   Lemma file_tail s P a um typ m12 rdev tg ct st2 X2 :
     wf_dent (sdent s) -> N.land typ S_IFMT = typ -> typ = copy_type (sdent s) ->
     (is_lnk (sdent s) = true -> um = 0 /\ typ = S_IFLNK /\ m12 = 511) ->
@@ -248,46 +288,102 @@ Section Node.
        st4 <~ copy_file_info o ms (sdent s) (P ++ [a]) st3 ;;
        st5 <~ copy_xattrs (sdent s) (P ++ [a]) st4 ;;
        ok (notify (P ++ [a]) false st5)) = (notify (P ++ [a]) false (with_fs st2 fs5), None) /\
-      Inv fs5 (xupd (P ++ [a]) (Some (new_entry s (P ++ [a]))) (touch P X2)).
+      Inv fs5 (xupd (P ++ [a]) (Some (new_entry s (P ++ [a]))) (touch P X2)) /\
+      (forall q, q <> P ++ [a] -> names fs5 q = names (c_fs st2) q) /\
+      names fs5 (P ++ [a]) = Some (next (c_fs st2)).
   Proof.
     intros Hwf Hty Hct Hl Hr Htg Hc I HT HP. set (T := P ++ [a]) in *. set (sd := sdent s) in *.
     destruct (inv_k_new o _ _ P a um typ m12 rdev tg ct I HT HP)
-      as (fs3 & j & E3 & Hj & Hjd & Hn3 & Hi3 & Hu3 & I3).
-    fold T in E3, Hn3, Hu3, I3. rewrite E3. cbn [sys]. rewrite bind_ok.
+      as (fs3 & j & E3 & Hj & Hjd & Hn3 & Hi3 & Hu3 & Hf3 & I3).
+    fold T in E3, Hn3, Hu3, Hf3, I3. rewrite E3. cbn [sys]. rewrite bind_ok.
     set (newd := new_dent um (inodes (c_fs st2) j) typ m12 rdev tg ct) in *.
-    specialize (I3 (xex newd (KNew T) false) (dm_xex _ _ _ _) eq_refl).
+    assert (Hkey : x_key (new_entry s T) = KNew T \/ exists s0, x_key (new_entry s T) = KSrc s0).
+    { rewrite new_entry_key. destruct (is_reg (sdent s) && multi (sino s)); eauto. }
+    specialize (I3 (xex newd (x_key (new_entry s T)) false) (dm_xex _ _ _ _) Hkey).
     destruct (meta_phase o ms sd T (with_fs st2 fs3) _ Hn3) as (fs5 & E5 & V5).
     rewrite <- (bind_assoc (copy_file_info o ms sd T (with_fs st2 fs3)) (fun x => copy_xattrs sd T x)
                   (fun x => ok (notify T false x))).
     rewrite E5. cbn [bind ok with_fs c_fs c_imap c_notifs c_stale].
-    exists fs5. split; [reflexivity|].
-    eapply Inv_fs_ext; [apply fs_eqv_sym; exact V5|].
-    eapply Inv_ext; [intro q; symmetry; apply xupd_xupd|].
-    cbn [with_fs c_fs].
-    eapply (inv_upd1 o fs3 _ T _ (finfo o ms sd) (xex newd (KNew T) false) (new_entry s T) I3 Hn3 Hu3).
-    - apply xupd_same.
-    - apply ftype_finfo.
-    - rewrite Hi3. apply dm_finfo_fresh; fold sd; auto.
-      + unfold newd. rewrite ftype_new_dent; auto.
-      + intro El. destruct (Hl El) as (-> & -> & ->). reflexivity.
-    - apply new_entry_key.
+    exists fs5. split; [reflexivity|]. cbn [with_fs c_fs] in V5. split; [|split].
+    - eapply Inv_fs_ext; [apply fs_eqv_sym; exact V5|].
+      eapply Inv_ext; [intro q; symmetry; apply xupd_xupd|].
+      eapply (inv_upd1 o fs3 _ T _ (finfo o ms sd) (xex newd (x_key (new_entry s T)) false) (new_entry s T) I3 Hn3 Hu3).
+      + apply xupd_same.
+      + apply ftype_finfo.
+      + rewrite Hi3. apply dm_finfo_fresh; fold sd; auto.
+        * unfold newd. rewrite ftype_new_dent; auto.
+        * intro El. destruct (Hl El) as (-> & -> & ->). reflexivity.
+      + reflexivity.
+    - intros q Hq. rewrite (fe_names _ _ V5). simpl names. auto.
+    - rewrite (fe_names _ _ V5). simpl names. auto.
   Qed.
 
-  Lemma type_facts sd :
-    (is_reg sd = true -> is_lnk sd = false /\ is_dev sd = false /\ copy_type sd = S_IFREG) /\
-    (is_lnk sd = true -> is_reg sd = false /\ is_dev sd = false /\ copy_type sd = S_IFLNK) /\
-    (is_dir sd = true -> is_reg sd = false /\ is_lnk sd = false /\ is_dev sd = false /\ is_sock sd = false /\ copy_type sd = S_IFDIR).
+  Lemma dm_shape d e e' : x_d e' = x_d e -> x_known e' = x_known e -> x_mk e' = x_mk e -> dm o d e -> dm o d e'.
+  Proof. unfold dm, eff_known. intros -> -> ->. auto. Qed.
+
+  (* a further member of a link group: link(2) to the recorded first copy + metadata phase *)
+  Lemma file_tail_link s P a st2 X2 l id :
+    wf_dent (sdent s) -> is_reg (sdent s) = true -> multi (sino s) = true -> sdent s = sdof (sino s) ->
+    Inv (c_fs st2) X2 -> Lk (c_fs st2) X2 (c_imap st2) -> X2 (P ++ [a]) = None -> x_isdir (X2 P) = true ->
+    imap_find (sino s) (c_imap st2) = Some (l, id) ->
+    exists fs5,
+      (st3 <~ sys (k_link l (P ++ [a]) (c_fs st2)) st2 ;;
+       st4 <~ copy_file_info o ms (sdent s) (P ++ [a]) st3 ;;
+       st5 <~ copy_xattrs (sdent s) (P ++ [a]) st4 ;;
+       ok (notify (P ++ [a]) false st5)) = (notify (P ++ [a]) false (with_fs st2 fs5), None) /\
+      Inv fs5 (xupd (P ++ [a]) (Some (new_entry s (P ++ [a]))) (touch P X2)) /\
+      Lk fs5 (xupd (P ++ [a]) (Some (new_entry s (P ++ [a]))) (touch P X2)) (c_imap st2).
   Proof.
-    unfold is_reg, is_lnk, is_dir, is_dev, is_sock, copy_type, is_sock.
-    split; [|split]; intro H; apply N.eqb_eq in H; rewrite H; repeat split; reflexivity.
+    intros Hwf Hreg Hmul Hsd I L HT HP Hrec. set (T := P ++ [a]) in *. set (sd := sdent s) in *.
+    destruct (lk_rec _ _ _ _ _ _ _ L _ _ _ Hrec) as (Hl & _ & _).
+    destruct (lk_mem _ _ _ _ _ _ _ L _ _ _ _ Hrec Hl) as (el & El1 & El2 & El3 & El4 & El5).
+    destruct (i_some _ _ _ I _ _ Hl) as (el' & El1' & Hdm & _). rewrite El1 in El1'. inversion El1'; subst el'.
+    assert (Hnd : is_dir (inodes (c_fs st2) id) = false).
+    { rewrite (dm_is_dir _ _ _ Hdm), El3. apply ne_d_nondir. rewrite <- Hsd. auto. }
+    set (eT := new_entry s T).
+    assert (KT : x_key eT = KSrc (sino s)) by (unfold eT; rewrite new_entry_key; fold sd; rewrite Hreg, Hmul; auto).
+    assert (DT : x_d eT = ne_d o ms (sdof (sino s))) by (unfold eT; rewrite new_entry_d, <- Hsd; auto).
+    assert (HdmT : dm o (inodes (c_fs st2) id) eT).
+    { apply (dm_shape _ el); auto; try (rewrite El4; reflexivity); try (rewrite El5; reflexivity). congruence. }
+    destruct (inv_k_link o _ _ P a l id eT I HT HP Hl Hnd HdmT) as (fs3 & E3 & Hn3 & I3); eauto.
+    { intros p e0 Hp He0. destruct (lk_mem _ _ _ _ _ _ _ L _ _ _ _ Hrec Hp) as (e1 & A1 & A2 & _).
+      rewrite He0 in A1. inversion A1; subst. eauto. }
+    fold T in E3, Hn3, I3. rewrite E3. cbn [sys]. rewrite bind_ok.
+    assert (HnT0 : names (c_fs st2) T = None) by (eapply inv_x_none; eauto).
+    assert (L3 : Lk fs3 (xupd T (Some eT) (touch P X2)) (c_imap st2)).
+    { eapply (Lk_link o ms multi sdof (c_fs st2)); eauto. }
+    assert (HnT3 : names fs3 T = Some id) by (rewrite Hn3, path_eqb_refl; auto).
+    destruct (meta_phase o ms sd T (with_fs st2 fs3) _ HnT3) as (fs5 & E5 & V5).
+    rewrite <- (bind_assoc (copy_file_info o ms sd T (with_fs st2 fs3)) (fun x => copy_xattrs sd T x)
+                  (fun x => ok (notify T false x))).
+    rewrite E5. cbn [bind ok with_fs c_fs c_imap c_notifs c_stale].
+    exists fs5. split; [reflexivity|]. cbn [with_fs c_fs] in V5. split.
+    - eapply Inv_fs_ext; [apply fs_eqv_sym; exact V5|].
+      eapply (inv_upd o fs3 _ _ id (finfo o ms sd) I3).
+      + apply ftype_finfo.
+      + intros p e Hp He. exists e. split; auto. split; auto.
+        assert (Hrec3 : names fs3 l = Some id).
+        { destruct (lk_rec _ _ _ _ _ _ _ L3 _ _ _ Hrec); auto. }
+        destruct (lk_mem _ _ _ _ _ _ _ L3 _ _ _ _ Hrec Hp) as (e1 & A1 & A2 & A3 & A4 & A5).
+        rewrite He in A1. inversion A1; subst e1.
+        destruct (i_some _ _ _ I3 _ _ Hp) as (e2 & B1 & B2 & _). rewrite He in B1. inversion B1; subst e2.
+        assert (Hxe : x_d e = ne_d o ms sd) by (rewrite A3, <- Hsd; auto).
+        destruct B2 as (C1 & C2 & C3 & _ & C5 & C6 & C7 & C8). rewrite Hxe in C1, C2, C3, C5, C6, C7, C8.
+        destruct Hwf as (_ & _ & _ & Hx).
+        destruct (type_facts_reg sd Hreg) as (Hlnk & _).
+        apply (finfo_fix o ms sd); auto.
+      + auto.
+    - eapply Lk_names_ext; [|exact L3]. intro q. rewrite (fe_names _ _ V5). reflexivity.
   Qed.
 
-  Lemma copy_file_ok nm ino sd : wf_dent sd -> is_dir sd = false -> node_ok (SNode nm ino sd []).
+  Lemma copy_file_ok nm ino sd :
+    wf_dent sd -> is_dir sd = false -> (is_reg sd = true -> multi ino = true -> sd = sdof ino) ->
+    node_ok (SNode nm ino sd []).
   Proof.
-    intros Hwf Hd sc T0 ow st X I Htok Hnc. cbn [sdent] in Htok.
+    intros Hwf Hd Hcons sc T0 ow st X I L0 Hpc Htok Hnc. cbn [sdent] in Htok.
     destruct Htok as [(_ & Hd' & _)|(P & a & -> & HP)]; [congruence|].
     rewrite copy_node_eq. cbv zeta. rewrite include_true, Hd. cbn [negb].
-    destruct (step_remove sd P a st X I HP) as (fs1 & E1 & I1). rewrite E1. cbn [bind].
+    destruct (step_remove sd P a st X I L0 Hpc HP) as (fs1 & E1 & I1 & L1). rewrite E1. cbn [bind].
     set (n := SNode nm ino sd []) in *. set (T := P ++ [a]) in *.
     set (removed := o_replace o && match X T with Some e => negb (is_dir sd && is_dir (x_d e)) | None => false end) in *.
     set (X1 := if removed then touch P (xrm T X) else X) in *.
@@ -312,14 +408,16 @@ Section Node.
     clearbody X1. clear removed.
     (* ensureEmptyFileTarget *)
     set (X2 := match X1 T with Some _ => touch P (xrm T X1) | None => X1 end).
-    assert (E2 : exists fs2, ensure_empty_file_target T (with_fs st fs1) = (with_fs st fs2, None) /\ Inv fs2 X2).
+    assert (E2 : exists fs2, ensure_empty_file_target T (with_fs st fs1) = (with_fs st fs2, None) /\ Inv fs2 X2 /\
+                             Lk fs2 X2 (c_imap st)).
     { unfold ensure_empty_file_target. pose proof (inv_lstat _ _ _ T I1) as HL. cbn [with_fs c_fs]. unfold X2.
       destruct F2 as [F2|(e & F2 & Fd)]; rewrite F2 in *.
       - destruct (lstat fs1 T); [contradiction|]. exists fs1. split; auto.
       - destruct (lstat fs1 T) as [td|]; [|contradiction]. rewrite (dm_is_dir _ _ _ HL), Fd.
-        destruct (inv_k_unlink o _ _ P a e I1 F2 Fd F1) as (fs2 & U1 & U2). fold T in U1, U2.
-        rewrite U1. exists fs2. split; auto. }
-    destruct E2 as (fs2 & E2 & I2). rewrite E2. cbn [bind].
+        destruct (inv_k_unlink o _ _ P a e I1 F2 Fd F1) as (fs2 & U1 & U2 & U3). fold T in U1, U2, U3.
+        rewrite U1. exists fs2. split; auto. split; auto.
+        apply (Lk_removed o ms multi sdof fs1); auto. }
+    destruct E2 as (fs2 & E2 & I2 & L2). rewrite E2. cbn [bind].
     assert (G1 : x_isdir (X2 P) = true).
     { unfold X2. destruct (X1 T); auto. rewrite touch_isdir, xrm_unrel; auto. apply parent_unrel. }
     assert (G2 : X2 T = None).
@@ -332,31 +430,74 @@ Section Node.
     clearbody X2.
     (* creation *)
     destruct (type_facts sd) as (TR & TL & _).
-    assert (E3 : exists fs5,
+    set (X5 := xupd T (Some (new_entry n T)) (touch P X2)).
+    assert (E3 : exists st5,
       (st3 <~ (if is_reg sd then copy_regular o multi ino sd T (with_fs st fs2)
                else if is_lnk sd then sys (k_symlink T (d_target sd) (c_fs (with_fs st fs2))) (with_fs st fs2)
                else copy_device o sd T (with_fs st fs2)) ;;
        st4 <~ copy_file_info o ms sd T st3 ;; st5 <~ copy_xattrs sd T st4 ;; ok (notify T false st5))
-      = (notify T false (with_fs st fs5), None) /\
-      Inv fs5 (xupd T (Some (new_entry n T)) (touch P X2))).
+      = (notify T false st5, None) /\
+      Inv (c_fs st5) X5 /\ Lk (c_fs st5) X5 (c_imap st5) /\ IM (c_imap st) (c_imap st5) T /\
+      c_notifs st5 = c_notifs st /\ c_stale st5 = c_stale st).
     { pose proof Hwf as Hwf'. destruct Hwf' as (Hz & Hl & Ht & Hx).
+      assert (HnT2 : names fs2 T = None) by (eapply inv_x_none; eauto).
+      (* a fresh inode with a per-path key *)
+      assert (Fresh : (is_reg sd && multi ino) = false ->
+                forall fs5,
+                  Inv fs5 X5 -> (forall q, q <> T -> names fs5 q = names fs2 q) -> names fs5 T = Some (next fs2) ->
+                  Inv (c_fs (with_fs st fs5)) X5 /\ Lk (c_fs (with_fs st fs5)) X5 (c_imap (with_fs st fs5)) /\
+                  IM (c_imap st) (c_imap (with_fs st fs5)) T /\
+                  c_notifs (with_fs st fs5) = c_notifs st /\ c_stale (with_fs st fs5) = c_stale st).
+      { intros Hk fs5 Q2 Q3 Q4. cbn [with_fs c_fs c_imap c_notifs c_stale].
+        split; auto. split; [|split; [apply IM_refl|auto]].
+        apply (Lk_new o ms multi sdof fs2); auto. rewrite new_entry_key. cbn [sdent sino n]. rewrite Hk. auto. }
       destruct (is_reg sd) eqn:Ereg; [|destruct (is_lnk sd) eqn:Elnk].
-      - destruct (TR eq_refl) as (A1 & A2 & A3).
-        unfold copy_regular. rewrite Hmulti. unfold k_create.
-        destruct (file_tail n P a (o_umask o) S_IFREG 438 0 [] (d_content sd) (with_fs st fs2) X2) as (fs5 & Q1 & Q2);
-          cbn [sdent n]; auto; try (repeat split; auto; fail).
-        + intro; congruence.
-        + rewrite A2; auto.
-        + rewrite Ht; auto.
-        + rewrite Ereg; auto.
-        + exists fs5. split; auto.
+      - destruct (TR eq_refl) as (A1 & A2 & A3). unfold copy_regular.
+        destruct (multi ino) eqn:Emul.
+        + cbn [with_fs c_fs c_imap c_notifs c_stale].
+          destruct (imap_find ino (c_imap st)) as [[l id]|] eqn:Eim.
+          * (* link to the recorded first copy *)
+            destruct (lk_rec _ _ _ _ _ _ _ L2 _ _ _ Eim) as (Hl2 & _ & _).
+            rewrite Hl2, N.eqb_refl. cbn [negb]. rewrite orb_false_r.
+            set (st2' := {| c_fs := fs2; c_imap := c_imap st; c_notifs := c_notifs st; c_stale := c_stale st |}).
+            destruct (file_tail_link n P a st2' X2 l id) as (fs5 & Q1 & Q2 & Q3); cbn [sdent sino n st2' c_fs c_imap]; auto.
+            fold T in Q1, Q2, Q3. cbn [sdent n] in Q1. change (c_fs st2') with fs2 in Q1. rewrite Q1. eexists. split; [reflexivity|].
+            cbn [with_fs c_fs c_imap c_notifs c_stale st2']. split; auto. split; auto. split; [apply IM_refl|auto].
+          * (* the first copy: recorded *)
+            unfold k_create.
+            set (st2' := {| c_fs := fs2; c_imap := (ino, (T, next fs2)) :: c_imap st; c_notifs := c_notifs st; c_stale := c_stale st |}).
+            destruct (file_tail n P a (o_umask o) S_IFREG 438 0 [] (d_content sd) st2' X2) as (fs5 & Q1 & Q2 & Q3 & Q4);
+              cbn [sdent n st2' c_fs]; auto; try (repeat split; auto; fail).
+            -- intro; congruence.
+            -- rewrite A2; auto.
+            -- rewrite Ht; auto.
+            -- rewrite Ereg; auto.
+            -- fold T in Q1, Q2, Q3, Q4. cbn [sdent n] in Q1. change (c_fs st2') with fs2 in Q1, Q3, Q4. rewrite Q1. eexists. split; [reflexivity|].
+               cbn [with_fs c_fs c_imap c_notifs c_stale st2']. split; auto. split; [|split; auto].
+               ++ apply (Lk_record o ms multi sdof fs2); auto.
+                  ** rewrite <- (Hcons eq_refl eq_refl). auto.
+                  ** rewrite new_entry_key. cbn [sdent sino n]. rewrite Ereg, Emul. auto.
+                  ** rewrite new_entry_d. cbn [sdent n]. rewrite <- (Hcons eq_refl eq_refl). auto.
+               ++ intros s l i. cbn [imap_find]. destruct (N.eqb s ino).
+                  ** intro H; inversion H; subst. right. apply is_prefix_true. exists []. rewrite app_nil_r. auto.
+                  ** auto.
+        + unfold k_create.
+          destruct (file_tail n P a (o_umask o) S_IFREG 438 0 [] (d_content sd) (with_fs st fs2) X2) as (fs5 & Q1 & Q2 & Q3 & Q4);
+            cbn [sdent n]; auto; try (repeat split; auto; fail).
+          * intro; congruence.
+          * rewrite A2; auto.
+          * rewrite Ht; auto.
+          * rewrite Ereg; auto.
+          * fold T in Q1, Q2, Q3, Q4. cbn [sdent n] in Q1. rewrite Q1. eexists. split; [reflexivity|].
+            eapply (Fresh (andb_false_r _)); eauto.
       - destruct (TL eq_refl) as (A1 & A2 & A3).
         unfold k_symlink.
-        destruct (file_tail n P a 0 S_IFLNK 511 0 (d_target sd) [] (with_fs st fs2) X2) as (fs5 & Q1 & Q2);
+        destruct (file_tail n P a 0 S_IFLNK 511 0 (d_target sd) [] (with_fs st fs2) X2) as (fs5 & Q1 & Q2 & Q3 & Q4);
           cbn [sdent n]; auto; try (repeat split; auto; fail).
         + rewrite A2; auto.
         + rewrite Ereg; auto.
-        + exists fs5. split; auto.
+        + fold T in Q1, Q2, Q3, Q4. cbn [sdent n] in Q1. rewrite Q1. eexists. split; [reflexivity|].
+          eapply (Fresh eq_refl); eauto.
       - unfold copy_device, k_mknod.
         set (mode := if is_sock sd then andnot (d_mode sd) S_IFSOCK else d_mode sd).
         assert (Hty : (if N.eqb (N.land mode S_IFMT) 0 then S_IFREG else N.land mode S_IFMT) = copy_type sd).
@@ -364,17 +505,17 @@ Section Node.
           - unfold andnot. rewrite land_ldiff_comm. fold (ftype sd). apply N.eqb_eq in Es. rewrite Es. reflexivity.
           - fold (ftype sd). apply N.eqb_neq in Hz. rewrite Hz. auto. }
         destruct (file_tail n P a (o_umask o) (if N.eqb (N.land mode S_IFMT) 0 then S_IFREG else N.land mode S_IFMT)
-                    (N.land mode allBits) (if is_dev sd then d_rdev sd else 0) [] [] (with_fs st fs2) X2) as (fs5 & Q1 & Q2);
+                    (N.land mode allBits) (if is_dev sd then d_rdev sd else 0) [] [] (with_fs st fs2) X2) as (fs5 & Q1 & Q2 & Q3 & Q4);
           cbn [sdent n]; auto; try (repeat split; auto; fail).
         + destruct (N.eqb (N.land mode S_IFMT) 0); [reflexivity|apply land_idem2].
         + intro; congruence.
         + rewrite Ht; auto.
         + rewrite Ereg; auto.
-        + exists fs5. split; auto. }
-    destruct E3 as (fs5 & E3 & I5). rewrite E3.
-    eexists. split; [reflexivity|]. cbn [notify with_fs c_fs c_imap c_notifs c_stale].
-    split; [|repeat split; auto].
-    - eapply Inv_ext; [|exact I5]. intro q. symmetry. unfold res. cbn [sdent n]. rewrite Hd. cbn [andb]. fold T.
+        + fold T in Q1, Q2, Q3, Q4. cbn [sdent n] in Q1. rewrite Q1. eexists. split; [reflexivity|].
+          eapply (Fresh eq_refl); eauto. }
+    destruct E3 as (st5 & E3 & I5 & L5 & M5 & N5 & S5). rewrite E3.
+    assert (EX : forall q, X5 q = res n T (negb ow) X q).
+    { intro q. unfold X5, res. cbn [sdent n]. rewrite Hd. cbn [andb]. fold T.
       assert (Hpar : parent T = P) by apply parent_snoc. rewrite Hpar.
       destruct (path_tri T q) as [->|[(b & r & ->)|Hq]].
       + rewrite xupd_same, touch_other, ov_at_T by auto. unfold CopySpec.copied. cbn [sdent n]. rewrite Hd.
@@ -382,9 +523,14 @@ Section Node.
       + rewrite xupd_other by apply below_ne. rewrite !touch_other by apply below_ne_parent.
         unfold n. rewrite ov_below_file by auto. apply G3.
       + rewrite xupd_other by (apply unrel_ne; auto). rewrite G4 by auto. symmetry.
-        apply touch_ext; [apply ov_unrel, parent_unrel|apply ov_unrel; auto].
-    - unfold n. cbn [node_notifs]. rewrite Hd. reflexivity.
+        apply touch_ext; [apply ov_unrel, parent_unrel|apply ov_unrel; auto]. }
+    eexists. split; [reflexivity|]. cbn [notify c_fs c_imap c_notifs c_stale].
+    split; [eapply Inv_ext; [|exact I5]; intro q; symmetry; apply EX|].
+    split; [eapply Lk_ext; [|exact L5]; intro q; symmetry; apply EX|].
+    split; auto. split; auto.
+    unfold n. cbn [node_notifs]. rewrite Hd, N5. reflexivity.
   Qed.
+
   Lemma bind_ret s (k : cstate -> R) : bind (s, None) k = k s.
   Proof. reflexivity. Qed.
 
@@ -416,32 +562,59 @@ Section Node.
   Lemma ovk_nil T X q : ovk [] T X q = X q.
   Proof. unfold ovk. destruct (strip_prefix T q) as [[|b r]|]; auto. Qed.
 
+  Lemma prefix_snoc_up T a l : is_prefix (T ++ [a]) l = true -> is_prefix T l = true.
+  Proof. intro H. apply is_prefix_true in H as (r & ->). rewrite <- app_assoc. apply is_prefix_app. Qed.
+  Lemma prefix_disjoint T a b l : is_prefix (T ++ [a]) l = true -> a <> b -> is_prefix (T ++ [b]) l = false.
+  Proof.
+    intros H Hab. apply is_prefix_true in H as (r & ->). rewrite <- app_assoc. simpl.
+    rewrite is_prefix_strip, strip_snoc_below. apply bytes_eqb_neq in Hab.
+    assert (bytes_eqb b a = false) as ->; auto. apply bytes_eqb_neq. apply bytes_eqb_neq in Hab. congruence.
+  Qed.
+  Lemma PC_kid T a im : PC T im -> PC (T ++ [a]) im.
+  Proof.
+    intros H s l i Hr. destruct (is_prefix (T ++ [a]) l) eqn:E; auto.
+    apply prefix_snoc_up in E. rewrite (H _ _ _ Hr) in E. discriminate.
+  Qed.
+  Lemma IM_sub im im1 im2 T a : IM im im1 (T ++ [a]) -> IM im1 im2 T -> IM im im2 T.
+  Proof.
+    intros H1 H2 s l i Hr. destruct (H2 _ _ _ Hr) as [Hr1|Hu]; auto.
+    destruct (H1 _ _ _ Hr1) as [Hr0|Hu]; auto. right. eapply prefix_snoc_up; eauto.
+  Qed.
+
   Lemma kids_ok l : Forall node_ok l -> forall sc T st Xc,
-    NoDup (map sname l) -> Inv (c_fs st) Xc -> x_isdir (Xc T) = true ->
+    NoDup (map sname l) -> Inv (c_fs st) Xc -> Lk (c_fs st) Xc (c_imap st) ->
+    (forall k, In k l -> PC (T ++ [sname k]) (c_imap st)) -> x_isdir (Xc T) = true ->
     (forall k, In k l -> nc Xc (T ++ [sname k]) k) ->
     exists st', kids_loop sc T l st = (st', None) /\ Inv (c_fs st') (touch T (ovk l T Xc)) /\
-      c_notifs st' = rev (kids_notifs Xc T l) ++ c_notifs st /\ c_imap st' = c_imap st /\ c_stale st' = c_stale st.
+      Lk (c_fs st') (touch T (ovk l T Xc)) (c_imap st') /\ IM (c_imap st) (c_imap st') T /\
+      c_notifs st' = rev (kids_notifs Xc T l) ++ c_notifs st /\ c_stale st' = c_stale st.
   Proof.
-    induction 1 as [|k r Hk Hr IH]; intros sc T st Xc Hnd I HT Hnc.
-    - exists st. simpl. split; auto. split; [|auto].
-      eapply Inv_ext; [|apply inv_touch_weak; eauto]. intro q. apply touch_ext; apply ovk_nil.
+    induction 1 as [|k r Hk Hr IH]; intros sc T st Xc Hnd I L Hpc HT Hnc.
+    - exists st. simpl. split; auto.
+      assert (E : forall q, touch T (ovk [] T Xc) q = touch T Xc q) by (intro q; apply touch_ext; apply ovk_nil).
+      split; [eapply Inv_ext; [exact E|apply inv_touch_weak; eauto]|].
+      split; [eapply Lk_ext; [exact E|apply Lk_touch; auto]|]. split; [apply IM_refl|auto].
     - simpl in Hnd. inversion Hnd as [|? ? Hni Hnd']; subst.
       rewrite kids_loop_cons.
-      destruct (Hk (sc ++ [sname k]) (T ++ [sname k]) true st Xc I) as (st1 & E1 & I1 & N1 & M1 & S1).
+      destruct (Hk (sc ++ [sname k]) (T ++ [sname k]) true st Xc I L) as (st1 & E1 & I1 & L1 & M1 & N1 & S1).
+      { apply Hpc. left; auto. }
       { right. exists T, (sname k). auto. }
       { apply Hnc. left; auto. }
-      rewrite E1, bind_ret. cbn [negb] in I1, N1.
+      rewrite E1, bind_ret. cbn [negb] in I1, L1, N1.
       set (Xc' := res k (T ++ [sname k]) false Xc) in *.
       assert (Hoth : forall b r0, bytes_eqb (sname k) b = false -> Xc' (T ++ b :: r0) = Xc (T ++ b :: r0)).
       { intros b r0 Hb. apply res_kid_other; [apply below_ne|]. rewrite strip_snoc_below, Hb. auto. }
-      destruct (IH sc T st1 Xc') as (st2 & E2 & I2 & N2 & M2 & S2); auto.
+      destruct (IH sc T st1 Xc') as (st2 & E2 & I2 & L2 & M2 & N2 & S2); auto.
+      { intros k2 Hin s l i Hrec. destruct (M1 _ _ _ Hrec) as [Hold|Hu].
+        - eapply Hpc; eauto. right; auto.
+        - eapply prefix_disjoint; eauto. intro E. apply Hni. rewrite E. apply in_map. auto. }
       { unfold Xc'. rewrite res_T_isdir. auto. }
       { intros k2 Hin Hr0. rewrite (first_conflict_ext Xc' Xc).
         - apply Hnc; auto. right; auto.
         - intro r0. rewrite <- app_assoc. simpl. apply Hoth. apply bytes_eqb_neq. intro E. apply Hni.
           rewrite E. apply in_map. auto. }
-      exists st2. split; auto. split; [|split; [|split; congruence]].
-      + eapply Inv_ext; [|exact I2]. intro q.
+      assert (EV : forall q, touch T (ovk (k :: r) T Xc) q = touch T (ovk r T Xc') q).
+      { intro q.
         destruct (path_dec q T) as [->|Hq].
         * rewrite !touch_same. unfold ovk. rewrite strip_self. symmetry. apply res_kid_T.
         * rewrite !touch_other by auto. destruct (path_tri T q) as [->|[(b & r0 & ->)|Hu]]; [congruence| |].
@@ -450,10 +623,15 @@ Section Node.
              ++ apply bytes_eqb_eq in Eb. subst b. rewrite (find_kid_none _ _ Hni).
                 rewrite (app_snoc_assoc T (sname k) r0). symmetry. apply res_kid_below.
              ++ rewrite (Hoth _ _ Eb). destruct (find_kid b r); auto. apply ov_ext. symmetry. apply Hoth; auto.
-          -- unfold ovk. rewrite Hu. symmetry. apply res_kid_other; auto. apply strip_snoc_unrel; auto.
-      + rewrite N2, N1. simpl kids_notifs. rewrite rev_app_distr, <- app_assoc.
-        rewrite (kids_notifs_ext Xc' Xc). auto.
+          -- unfold ovk. rewrite Hu. symmetry. apply res_kid_other; auto. apply strip_snoc_unrel; auto. }
+      exists st2. split; auto.
+      split; [eapply Inv_ext; [exact EV|exact I2]|].
+      split; [eapply Lk_ext; [exact EV|exact L2]|].
+      split; [eapply IM_sub; eauto|]. split; [|congruence].
+      rewrite N2, N1. simpl kids_notifs. rewrite rev_app_distr, <- app_assoc.
+      rewrite (kids_notifs_ext Xc' Xc). auto.
   Qed.
+
   (* ---- directories ---- *)
   Lemma res_dir_at nm ino sd kids T tp X q :
     (x_isdir (X T) = true \/ exists P a, T = P ++ [a]) -> is_dir sd = true ->
@@ -471,7 +649,8 @@ Section Node.
     let n := SNode nm ino sd kids in
     Forall node_ok kids -> NoDup (map sname kids) -> wf_dent sd -> is_dir sd = true ->
     (x_isdir (X T) = true \/ exists P a, T = P ++ [a]) ->
-    Inv (c_fs st2) X2 -> X2 T = Some e2 -> is_dir (x_d e2) = true ->
+    Inv (c_fs st2) X2 -> Lk (c_fs st2) X2 (c_imap st2) -> PC T (c_imap st2) ->
+    X2 T = Some e2 -> is_dir (x_d e2) = true ->
     (forall b r, X2 (T ++ b :: r) = X (T ++ b :: r)) ->
     (forall q, strip_prefix T q = None -> X2 q = res n T (negb ow) X q) ->
     (forall k, In k kids -> nc X (T ++ [sname k]) k) ->
@@ -490,17 +669,21 @@ Section Node.
              then copy_file_timestamp o sd T st4
         else ok st4)) = (st', None) /\
       Inv (c_fs st') (res n T (negb ow) X) /\
+      Lk (c_fs st') (res n T (negb ow) X) (c_imap st') /\ IM (c_imap st2) (c_imap st') T /\
       c_notifs st' = rev (node_notifs X (negb ow) T n) ++ c_notifs st2 /\
-      c_imap st' = c_imap st2 /\ c_stale st' = c_stale st2.
+      c_stale st' = c_stale st2.
   Proof.
-    intros n IH Hnd Hwf Hd HTok I2 H2 Hd2 Hb Hu Hnc Hcr Hnew Hold.
+    intros n IH Hnd Hwf Hd HTok I2 L2 Hpc H2 Hd2 Hb Hu Hnc Hcr Hnew Hold.
     set (st3 := if true && (created || ow) then notify T true st2 else st2).
     assert (I3 : Inv (c_fs st3) X2) by (unfold st3; destruct (true && (created || ow)); auto).
-    destruct (kids_ok kids IH sc T st3 X2 Hnd I3) as (st4 & E4 & I4 & N4 & M4 & S4).
+    assert (L3 : Lk (c_fs st3) X2 (c_imap st3)) by (unfold st3; destruct (true && (created || ow)); auto).
+    assert (M3 : c_imap st3 = c_imap st2) by (unfold st3; destruct (true && (created || ow)); auto).
+    destruct (kids_ok kids IH sc T st3 X2 Hnd I3 L3) as (st4 & E4 & I4 & L4 & M4 & N4 & S4).
+    { intros k Hin. rewrite M3. apply PC_kid; auto. }
     { rewrite H2. auto. }
     { intros k Hin Hr. rewrite (first_conflict_ext X2 X); [apply Hnc; auto|].
       intro r. rewrite <- app_assoc. apply Hb. }
-    rewrite E4, bind_ret.
+    rewrite E4, bind_ret. rewrite M3 in M4.
     (* the directory's inode *)
     assert (H4 : touch T (ovk kids T X2) T = Some (touched e2)).
     { rewrite touch_same. unfold ovk. rewrite strip_self, H2. auto. }
@@ -508,25 +691,32 @@ Section Node.
     assert (Hdi : is_dir (inodes (c_fs st4) i) = true).
     { rewrite (dm_is_dir _ _ _ Hm), touched_d. auto. }
     pose proof (dir_unique _ _ _ _ _ I4 Hi Hdi) as Hu4.
+    assert (Hns : forall s, x_key (touched e2) <> KSrc s).
+    { intros s Hs. pose proof (lk_src_not_dir _ _ _ _ _ _ _ _ _ _ L4 H4 Hs) as Hx. rewrite touched_d in Hx. congruence. }
     set (e5 := copied n (X T) (negb ow) T).
-    assert (Fin : forall (f : dent -> dent) st', c_fs st' = c_fs st4 ->
+    assert (EV : forall q, res n T (negb ow) X q = xupd T (Some e5) (touch T (ovk kids T X2)) q).
+    { intro q. destruct (path_tri T q) as [->|[(b & r & ->)|Hq]].
+      + rewrite xupd_same. unfold n. rewrite res_dir_at, ov_at_T; auto.
+      + rewrite xupd_other, touch_other by apply below_ne. unfold n. rewrite res_dir_at, ov_below_dir; eauto.
+        unfold ovk. rewrite strip_prefix_app, Hb. destruct (find_kid b kids); auto. apply ov_ext. symmetry. apply Hb.
+      + rewrite xupd_other, touch_other by (apply unrel_ne; auto). unfold ovk. rewrite Hq. symmetry. apply Hu. auto. }
+    assert (Fin : forall (f : dent -> dent),
               ftype (f (inodes (c_fs st4) i)) = ftype (inodes (c_fs st4) i) ->
               dm o (f (inodes (c_fs st4) i)) e5 -> x_key e5 = x_key e2 ->
-              Inv (upd_inode i f (c_fs st4)) (res n T (negb ow) X)).
-    { intros f st' _ Hft Hdm Hkey.
-      eapply Inv_ext; [|eapply (inv_upd1 o _ _ T i f (touched e2) e5 I4 Hi Hu4 H4 Hft Hdm)].
-      - intro q. destruct (path_tri T q) as [->|[(b & r & ->)|Hq]].
-        + rewrite xupd_same. unfold n. rewrite res_dir_at, ov_at_T; auto.
-        + rewrite xupd_other, touch_other by apply below_ne. unfold n. rewrite res_dir_at, ov_below_dir; eauto.
-          unfold ovk. rewrite strip_prefix_app, Hb. destruct (find_kid b kids); auto. apply ov_ext. symmetry. apply Hb.
-        + rewrite xupd_other, touch_other by (apply unrel_ne; auto). unfold ovk. rewrite Hq. symmetry. apply Hu. auto.
-      - rewrite touched_key. auto. }
+              Inv (upd_inode i f (c_fs st4)) (res n T (negb ow) X) /\
+              Lk (upd_inode i f (c_fs st4)) (res n T (negb ow) X) (c_imap st4)).
+    { intros f Hft Hdm Hkey. split.
+      - eapply Inv_ext; [exact EV|eapply (inv_upd1 o _ _ T i f (touched e2) e5 I4 Hi Hu4 H4 Hft Hdm)].
+        rewrite touched_key. auto.
+      - eapply Lk_ext; [exact EV|].
+        eapply (Lk_upd o ms multi sdof (c_fs st4) _ _ _ T (touched e2) e5 L4); auto.
+        intros s Hs. apply (Hns s). rewrite touched_key. congruence. }
     assert (Hnot : c_notifs st4 = rev (node_notifs X (negb ow) T n) ++ c_notifs st2).
     { rewrite N4. unfold n. rewrite node_notifs_dir by auto. rewrite rev_app_distr, <- app_assoc.
       rewrite (kids_notifs_ext X2 X). f_equal. unfold st3. rewrite Hcr.
       destruct ow, (x_isdir (X T)); reflexivity. }
-    assert (Hother : c_imap st4 = c_imap st2 /\ c_stale st4 = c_stale st2).
-    { rewrite M4, S4. unfold st3. destruct (true && (created || ow)); auto. }
+    assert (Hother : c_stale st4 = c_stale st2).
+    { rewrite S4. unfold st3. destruct (true && (created || ow)); auto. }
     destruct created eqn:Ecr.
     - (* created by this call *)
       destruct (Hnew eq_refl) as (A1 & A2 & A3 & A4 & A5 & A6).
@@ -535,18 +725,21 @@ Section Node.
       { unfold e5, CopySpec.copied. destruct (X T) as [e|]; auto. unfold x_isdir in Em. cbn [sdent n]. rewrite Em, andb_false_r. auto. }
       assert ((if ow then true else true) = true) as -> by (destruct ow; auto).
       destruct (meta_phase o ms sd T st4 i Hi) as (fs5 & Q1 & Q2). rewrite Q1.
-      eexists. split; [reflexivity|]. cbn [with_fs c_fs c_imap c_notifs c_stale]. split; [|tauto].
-      eapply Inv_fs_ext; [apply fs_eqv_sym; exact Q2|].
-      destruct Hm as (B1 & _ & _ & _ & B5 & B6 & B7 & B8). rewrite touched_d in *.
-      apply (Fin _ st4 eq_refl); [apply ftype_finfo| |rewrite E5, new_entry_key; auto].
-      rewrite E5. destruct (type_facts sd) as (_ & _ & TD). destruct (TD Hd) as (C1 & C2 & C3 & C4 & C5).
-      apply (dm_finfo_fresh o ms multi n T); cbn [sdent n]; auto.
-      + rewrite C5, <- A1. apply ftype_mode; auto.
-      + intro; congruence.
-      + rewrite C3. congruence.
-      + destruct Hwf as (_ & _ & Ht & _). rewrite Ht by auto. congruence.
-      + congruence.
-      + rewrite C1. congruence.
+      eexists. split; [reflexivity|]. cbn [with_fs c_fs c_imap c_notifs c_stale].
+      destruct (type_facts sd) as (_ & _ & TD). destruct (TD Hd) as (C1 & C2 & C3 & C4 & C5).
+      destruct (Fin (finfo o ms sd)) as (F1 & F2).
+      { apply ftype_finfo. }
+      { destruct Hm as (B1 & _ & _ & _ & B5 & B6 & B7 & B8). rewrite touched_d in *.
+        rewrite E5. apply (dm_finfo_fresh o ms multi n T); cbn [sdent n]; auto.
+        + rewrite C5, <- A1. apply ftype_mode; auto.
+        + intro; congruence.
+        + rewrite C3. congruence.
+        + destruct Hwf as (_ & _ & Ht & _). rewrite Ht by auto. congruence.
+        + congruence.
+        + rewrite C1. congruence. }
+      { rewrite E5, new_entry_key. cbn [sdent n]. rewrite C1. auto. }
+      split; [eapply Inv_fs_ext; [apply fs_eqv_sym; exact Q2|exact F1]|].
+      split; [eapply Lk_names_ext; [|exact F2]; intro q; rewrite (fe_names _ _ Q2); reflexivity|]. tauto.
     - (* merged into an existing directory *)
       destruct (Hold eq_refl) as (Htfi & e & HXT & K1 & K2 & K3).
       assert (Em : is_dir (x_d e) = true).
@@ -557,31 +750,36 @@ Section Node.
       destruct Hm as (B1 & B2 & B3 & B4 & B5 & B6 & B7 & B8). rewrite touched_d in B1, B2, B3, B4, B5, B6, B7, B8.
       destruct ow; cbn [negb andb] in *.
       + destruct (meta_phase o ms sd T st4 i Hi) as (fs5 & Q1 & Q2). rewrite Q1.
-        eexists. split; [reflexivity|]. cbn [with_fs c_fs c_imap c_notifs c_stale]. split; [|tauto].
-        eapply Inv_fs_ext; [apply fs_eqv_sym; exact Q2|].
-        apply (Fin _ st4 eq_refl); [apply ftype_finfo| |].
-        * unfold e5, CopySpec.copied. rewrite HXT. cbn [sdent n]. rewrite Hd, Em. cbn [andb].
+        eexists. split; [reflexivity|]. cbn [with_fs c_fs c_imap c_notifs c_stale].
+        destruct (Fin (finfo o ms sd)) as (F1 & F2).
+        { apply ftype_finfo. }
+        { unfold e5, CopySpec.copied. rewrite HXT. cbn [sdent n]. rewrite Hd, Em. cbn [andb].
           apply dm_finfo_merge; auto; rewrite K3 in *.
           -- rewrite (ftype_mode _ _ B1). apply ftype_set_perm.
           -- rewrite B5. reflexivity.
           -- rewrite B6. reflexivity.
           -- rewrite B7. reflexivity.
-          -- rewrite B8. reflexivity.
-        * unfold e5, CopySpec.copied. rewrite HXT. cbn [sdent n]. rewrite Hd, Em. cbn [andb x_key]. auto.
+          -- rewrite B8. reflexivity. }
+        { unfold e5, CopySpec.copied. rewrite HXT. cbn [sdent n]. rewrite Hd, Em. cbn [andb x_key]. auto. }
+        split; [eapply Inv_fs_ext; [apply fs_eqv_sym; exact Q2|exact F1]|].
+        split; [eapply Lk_names_ext; [|exact F2]; intro q; rewrite (fe_names _ _ Q2); reflexivity|]. tauto.
       + destruct tfi; [|congruence]. rewrite (time_phase o sd T st4 i Hi).
-        eexists. split; [reflexivity|]. cbn [with_fs c_fs c_imap c_notifs c_stale]. split; [|tauto].
-        apply (Fin _ st4 eq_refl); [apply ftype_set_mtime| |].
-        * unfold e5, CopySpec.copied. rewrite HXT. cbn [sdent n]. rewrite Hd, Em. cbn [andb].
+        eexists. split; [reflexivity|]. cbn [with_fs c_fs c_imap c_notifs c_stale].
+        destruct (Fin (set_mtime (info_time o sd))) as (F1 & F2).
+        { apply ftype_set_mtime. }
+        { unfold e5, CopySpec.copied. rewrite HXT. cbn [sdent n]. rewrite Hd, Em. cbn [andb].
           rewrite <- K3.
           pose proof (dm_set_mtime o _ (touched e2) (info_time o sd) (x_key e) (x_mk e) Hm0) as Q.
-          rewrite touched_d in Q. exact Q.
-        * unfold e5, CopySpec.copied. rewrite HXT. cbn [sdent n]. rewrite Hd, Em. cbn [andb x_key]. auto.
+          rewrite touched_d in Q. exact Q. }
+        { unfold e5, CopySpec.copied. rewrite HXT. cbn [sdent n]. rewrite Hd, Em. cbn [andb x_key]. auto. }
+        split; [exact F1|]. split; [exact F2|]. tauto.
   Qed.
+
   Lemma copy_dir_ok nm ino sd kids :
     wf_dent sd -> is_dir sd = true -> NoDup (map sname kids) -> Forall node_ok kids ->
     node_ok (SNode nm ino sd kids).
   Proof.
-    intros Hwf Hd Hnd IH sc T ow st X I Htok Hnc. cbn [sdent] in Htok.
+    intros Hwf Hd Hnd IH sc T ow st X I L0 Hpc Htok Hnc. cbn [sdent] in Htok.
     rewrite copy_node_eq. cbv zeta. rewrite include_true, Hd.
     set (n := SNode nm ino sd kids) in *.
     pose proof (inv_lstat _ _ _ T I) as HL.
@@ -599,6 +797,8 @@ Section Node.
       { intros k Hin Hr. destruct (first_conflict_dir X T nm ino sd kids e (Hnc Hr) HXT Hd) as (_ & Hc). auto. }
       assert (HTok : x_isdir (X T) = true \/ exists P a, T = P ++ [a]).
       { left. unfold x_isdir. rewrite HXT. auto. }
+      assert (Hns : forall s, x_key e <> KSrc s).
+      { intros s Hs. pose proof (lk_src_not_dir _ _ _ _ _ _ _ _ _ _ L0 HXT Hs). congruence. }
       unfold copy_dir_only. rewrite ELs, Htd. cbn [negb].
       destruct ow.
       + rewrite (upd_path_some _ _ _ _ Hi).
@@ -608,8 +808,10 @@ Section Node.
           - eapply dir_unique; eauto.
           - apply ftype_set_perm.
           - apply dm_set_perm; auto. }
+        assert (L2 : Lk (upd_inode i (set_perm (perm12 sd)) (c_fs st)) (xupd T (Some e2) X) (c_imap st)).
+        { eapply (Lk_upd o ms multi sdof (c_fs st) _ _ _ T e e2 L0); auto. }
         destruct (dir_tail nm ino sd kids sc T true X (with_fs st (upd_inode i (set_perm (perm12 sd)) (c_fs st)))
-                    (xupd T (Some e2) X) e2 false (Some td)) as (st' & Q1 & Q2 & Q3 & Q4 & Q5); auto.
+                    (xupd T (Some e2) X) e2 false (Some td)) as (st' & Q1 & Q2 & Q3 & Q4 & Q5 & Q6); auto.
         * apply xupd_same.
         * cbn [e2 x_d]. rewrite <- (is_dir_ftype _ _ (eq_sym (ftype_set_perm (perm12 sd) (x_d e)))). auto.
         * intros b r. apply xupd_other, below_ne.
@@ -619,7 +821,7 @@ Section Node.
         * discriminate.
         * intros _. split; [discriminate|]. exists e. auto.
         * exists st'. split; auto.
-      + destruct (dir_tail nm ino sd kids sc T false X st X e false (Some td)) as (st' & Q1 & Q2 & Q3 & Q4 & Q5); auto.
+      + destruct (dir_tail nm ino sd kids sc T false X st X e false (Some td)) as (st' & Q1 & Q2 & Q3 & Q4 & Q5 & Q6); auto.
         * intros q Hq. unfold res. cbn [sdent]. rewrite Hd.
           unfold x_isdir. rewrite HXT, Em. cbn [andb]. symmetry. apply ov_unrel; auto.
         * unfold x_isdir. rewrite HXT, Em. auto.
@@ -629,7 +831,7 @@ Section Node.
     - (* the directory is created by this call *)
       destruct Htok as [(-> & _ & H0)|(P & a & -> & HP)]; [congruence|].
       set (T := P ++ [a]) in *.
-      destruct (step_remove sd P a st X I HP) as (fs1 & E1 & I1). fold T in E1, I1. rewrite E1, bind_ret.
+      destruct (step_remove sd P a st X I L0 Hpc HP) as (fs1 & E1 & I1 & L1). fold T in E1, I1, L1. rewrite E1, bind_ret.
       set (removed := o_replace o && match X T with Some e => negb (is_dir sd && is_dir (x_d e)) | None => false end) in *.
       set (X1 := if removed then touch P (xrm T X) else X) in *.
       assert (HPT : T <> P) by apply snoc_ne_parent.
@@ -656,13 +858,15 @@ Section Node.
       unfold copy_dir_only. cbn [with_fs c_fs]. destruct (lstat fs1 T) eqn:ELs; [contradiction|].
       unfold k_mkdir.
       destruct (inv_k_new o _ _ P a (o_umask o) S_IFDIR (N.land (perm12 sd) 1023) 0 [] [] I1 F2 F1)
-        as (fs2 & j & E2 & Hj & Hjd & Hn2 & Hi2 & Hu2 & I2).
-      fold T in E2, Hn2, Hu2, I2. rewrite E2.
+        as (fs2 & j & E2 & Hj & Hjd & Hn2 & Hi2 & Hu2 & Hf2 & I2).
+      fold T in E2, Hn2, Hu2, Hf2, I2. rewrite E2.
       set (newd := new_dent (o_umask o) (inodes fs1 j) S_IFDIR (N.land (perm12 sd) 1023) 0 [] []) in *.
-      specialize (I2 (xex newd (KNew T) false) (dm_xex _ _ _ _) eq_refl).
+      specialize (I2 (xex newd (KNew T) false) (dm_xex _ _ _ _) (or_introl eq_refl)).
+      assert (L2 : Lk fs2 (xupd T (Some (xex newd (KNew T) false)) (touch P X1)) (c_imap st)).
+      { eapply (Lk_new o ms multi sdof fs1); eauto. }
       destruct (dir_tail nm ino sd kids sc T ow X (with_fs st fs2)
                   (xupd T (Some (xex newd (KNew T) false)) (touch P X1)) (xex newd (KNew T) false) true
-                  (lstat (c_fs st) T)) as (st' & Q1 & Q2 & Q3 & Q4 & Q5); auto.
+                  (lstat (c_fs st) T)) as (st' & Q1 & Q2 & Q3 & Q4 & Q5 & Q6); auto.
       + right. exists P, a. auto.
       + apply xupd_same.
       + cbn [xex x_d]. apply N.eqb_eq. unfold newd. apply ftype_new_dent. reflexivity.
@@ -682,10 +886,11 @@ Section Node.
       + exists st'. split; auto.
   Qed.
 
-  Theorem copy_node_ok : forall n, wf_s n -> node_ok n.
+  Theorem copy_node_ok : forall n, wf_s n -> cons_s n -> node_ok n.
   Proof.
-    induction n as [nm ino sd kids IH] using snode_ind2. intro Hwf.
+    induction n as [nm ino sd kids IH] using snode_ind2. intros Hwf Hcs.
     apply wf_s_unfold in Hwf. destruct Hwf as (Hwd & Hk & Hnd & Hall).
+    apply cons_s_unfold in Hcs. destruct Hcs as (Hc1 & Hc2).
     destruct (is_dir sd) eqn:Hd.
     - apply copy_dir_ok; auto. rewrite Forall_forall in *. auto.
     - rewrite (Hk eq_refl). apply copy_file_ok; auto.
